@@ -39,6 +39,12 @@ inductive Exec : Stmt → σ → Out → σ → Prop where
   | foreverT {b p s o s1 s3} : Exec b s o s1 → o ≠ .brk →
       Exec (.forever b p) (M.act p s1) .normal s3 → Exec (.forever b p) s .normal s3
   | foreverB {b p s s1} : Exec b s .brk s1 → Exec (.forever b p) s .normal s1
+  -- switch: a `break` in a clause leaves the switch; `continue` goes on to the enclosing loop
+  | swdN {d s o s'} : Exec d s o s' → o ≠ .brk → Exec (.swd d) s o s'
+  | swdB {d s s'} : Exec d s .brk s' → Exec (.swd d) s .normal s'
+  | swcT {c a r s o s'} : M.cval c s = true → Exec a (M.ceff c s) o s' → o ≠ .brk → Exec (.swc c a r) s o s'
+  | swcB {c a r s s'} : M.cval c s = true → Exec a (M.ceff c s) .brk s' → Exec (.swc c a r) s .normal s'
+  | swcF {c a r s o s'} : M.cval c s = false → Exec r (M.ceff c s) o s' → Exec (.swc c a r) s o s'
 
 abbrev Cfg (σ : Type) := Nat × List Bool × σ
 
@@ -110,6 +116,26 @@ theorem rw_append (db dc X Y) :
   induction X with
   | nil => simp [rw]
   | cons i is ih => simp [rw, ih, rwI_shift]
+
+@[simp] theorem rwB_length (db F) : (rwB db F).length = F.length := by
+  induction F with
+  | nil => rfl
+  | cons i is ih => simp [rwB, ih]
+
+theorem rwI_rwBI (db dc k rem i) : rwI db dc rem (rwBI k rem i) = rwI k dc rem i := by
+  unfold rwI rwBI
+  by_cases h1 : i.op = "BREAK"
+  · simp [h1]
+  · by_cases h2 : i.op = "CONTINUE"
+    · simp [h1, h2]
+    · simp [h1, h2]
+
+/-- a clause's BREAK rewriting followed by the enclosing loop's rewriting is one rewriting with
+    the clause's break target and the loop's continue target -/
+theorem rw_rwB (db dc k F) : rw db dc (rwB k F) = rw k dc F := by
+  induction F with
+  | nil => rfl
+  | cons i is ih => simp [rw, rwB, ih, rwI_rwBI]
 
 theorem rwI_noPH (db dc rem i) (h : isPH i = false) : rwI db dc rem i = i := by
   unfold isPH at h
